@@ -22,7 +22,11 @@ RULE = ('All 1,331,463 non-sysex messages (every in-range attribute combination 
 ASSUMPTIONS = ['reference codec lib/refmidi.py written from the MIDI 1.0 tables is correct',
                'times are compared with == and type identity; NaN/inf times are not generated']
 
-CONTAINERS = ('list', 'tuple', 'bytes', 'bytearray', 'bin', 'hex', 'hexsep', 'hexsep2', 'hexsep3', 'hexnosep')
+# 'hexsepx:<sep>': separators that are regular-expression metacharacters (round 13: a from_hex that builds a pattern from
+# the separator without escaping it)
+CONTAINERS = ('list', 'tuple', 'bytes', 'bytearray', 'bin', 'hex', 'hexsep', 'hexsep2', 'hexsep3', 'hexnosep',
+              'hexsepx:.', 'hexsepx:|', 'hexsepx:+', 'hexsepx:*', 'hexsepx:?', 'hexsepx:$', 'hexsepx:^', 'hexsepx:(',
+              'hexsepx:[', 'hexsepx:\\', 'hexsepx: | ', 'hexsepx:..', 'hexsepx:{2}', 'hexsepx:)(')
 
 
 def _conv(kind, b):
@@ -98,6 +102,8 @@ def check_msg(d, conts, t2, data_as='list'):
                 r = mido.Message.from_hex(m.hex(sep='-x-'), time=t2, sep='-x-')
             elif c == 'hexnosep':
                 r = mido.Message.from_hex(m.hex(sep=''), time=t2)
+            elif c.startswith('hexsepx:'):
+                r = mido.Message.from_hex(m.hex(sep=c[8:]), time=t2, sep=c[8:])
             else:
                 r = mido.Message.from_bytes(_conv(c, got), time=t2)
         except Exception as exc:  # noqa: BLE001
